@@ -18,6 +18,7 @@ TABLE = [
  ("regress/C10/own-dial-in-flight-during-cancel.json", "1816325"),
  ("regress/C11/setup-after-end-3436f10.json", "3436f10"),
  ("regress/C18/cancel-on-completed-connection.json", "7123785"),
+ ("regress/C18/direct-notification-overtakes-delayed.json", "0ae2d62"),
  ("regress/C01/hello-ok-after-unregister-511ee29.json", "511ee29"),
  ("regress/C01/connection-arrives-during-cancel.json", "eeb727a"),
  ("regress/C05/stale-attempt-after-graceful-close-7248753.json", "7248753"),
